@@ -319,5 +319,6 @@ func main() {
 	writeIfChanged(filepath.Join(out, "MuxGen.v"), p.emitMuxGen())
 	writeIfChanged(filepath.Join(out, "ParseGen.v"), p.emitParseGen())
 	writeIfChanged(filepath.Join(out, "DemuxGen.v"), p.emitDemuxGen())
+	writeIfChanged(filepath.Join(out, "PsiGen.v"), p.emitPsiGen())
 	writeIfChanged(filepath.Join(out, "Alias.v"), p.emitAlias()+p.emitGlobals())
 }
